@@ -583,6 +583,23 @@ example : BoolU inTree = true ∧ noIsGen inTree = true ∧
     (parse mysql (renderU .mysql inTree).print).map G.skel = some (renderU .mysql inTree).norm.skel := by
   decide +kernel
 
+/-- non-vacuity for BETWEEN: `NOT (a + 1 BETWEEN b * 2 AND coalesce(c, 0) - 1) AND a BETWEEN 1 AND 5`
+    is a boolean tree of the fragment (arithmetic bounds are fine: their operators lie above
+    BETWEEN; the cells of finding `between-bound-ungrouped` — a comparison or a boolean as bound —
+    are outside `NumU`); it builds (the negation becomes NOT BETWEEN) and is read back -/
+def btwTree : U :=
+  .and_ [.not_ (.between (.bin .add (.col "a" .int) (.li 1)) (.bin .mul (.col "b" .int) (.li 2))
+                  (.bin .sub (.coalesce [.col "c" .int, .li 0]) (.li 1))),
+         .between (.col "a" .int) (.li 1) (.li 5)]
+
+example : BoolU btwTree = true ∧ noIsGen btwTree = true ∧
+    (match build btwTree with | some e => ConcatSafe .sqlite e | none => false) = true ∧
+    (parse sqlite (renderU .sqlite btwTree).print).map G.skel = some (renderU .sqlite btwTree).norm.skel ∧
+    (parse postgresql (renderU .postgresql btwTree).print).map G.skel
+      = some (renderU .postgresql btwTree).norm.skel ∧
+    (parse mysql (renderU .mysql btwTree).print).map G.skel = some (renderU .mysql btwTree).norm.skel := by
+  decide +kernel
+
 /-- **sqlite_concat_counterexample** (F1): `(1 + 2) || '3'` is emitted without parentheses and
     the SQLite grammar reads the text as `1 + (2 || '3')`.  Replayed on the real code and the
     real SQLite by `known_findings.d/C01.json`. -/
